@@ -48,6 +48,7 @@ type Ev struct {
 	Taken    bool // branch events: the edge taken
 	Base     RV   // field load/store events: the (resolved) struct pointer
 	Field    *types.Var
+	Note     string // free-form payload (facts emitted by probes)
 }
 
 type Path struct {
@@ -121,6 +122,8 @@ type PPA struct {
 	TraceBranches bool
 	// TraceLoads records loads of struct fields as events "load:pkg.Type.field".
 	TraceLoads bool
+	// Probe is called for every instruction about to be executed on a path.
+	Probe func(e *PPA, st *State, fr *Frame, in ssa.Instruction)
 
 	Paths     []Path
 	Truncated int // paths abandoned at the loop bound
@@ -373,6 +376,9 @@ func (e *PPA) resolveAddr(st *State, a RV) RV {
 	return a
 }
 
+// Trace returns the events recorded so far on the current path (for probes).
+func (st *State) Trace() []Ev { return st.trace }
+
 func (e *PPA) emit(st *State, ev Ev) {
 	if e.Watch == nil || e.Watch(&ev) {
 		st.trace = append(st.trace, ev)
@@ -458,6 +464,9 @@ func (e *PPA) exec(fr *Frame, b *ssa.BasicBlock, i int, st *State, k cont) {
 	for ; i < len(b.Instrs); i++ {
 		if e.Overflow {
 			return
+		}
+		if e.Probe != nil {
+			e.Probe(e, st, fr, b.Instrs[i])
 		}
 		switch in := b.Instrs[i].(type) {
 		case *ssa.Phi:
